@@ -649,6 +649,11 @@ def _check_requant(repo, R, h, hp, call, line, tparams, ops):
     else:
         ok = stxt == f"{x}._scale"
         g = scalar_axis_fact(hp, x)
+        # the operand's scale only covers the operand's own range: a value computed from ANOTHER operand as well (where(c, q, other)) may lie outside it
+        others = [a for a in (t.args if is_op_call(t) else []) if U(a) != deq and any(isinstance(n, ast.Name) and n.id in tparams and n.id != x for n in ast.walk(a))]
+        if ok and others:
+            R("C05", "C05.R10", "bad", h, line, "requantize scale does not cover the other operand", f"`{U(t)[:60]}` mixes `{x}` with `{U(others[0])[:30]}` and is re-quantized with the scale of `{x}` alone: values of the other operand beyond {x}'s range saturate",
+              "torch.where(cond, q, 5.0) with q in [-1, 1]: the selected 5.0 comes back as 1.0 (error of 500 output steps, the property allows one)")
         R("C05", "C05.R10", "ok" if ok and g else "bad", h, line, "requantize scale", f"re-quantization uses scale `{stxt[:60]}` (operand's scale expected) under `{x}.axis is None`={g}",
           "a per-axis operand (activations are per-tensor: ValueError)" if ok else "any input: values re-quantized with an unrelated scale")
 
